@@ -23,7 +23,9 @@ RULE = ("Each run picks a workload -- W1: 2-3 foreign threads (and "
         "several threads at once, repeatedly; W3: foreign threads enter "
         "scheduler.synchronized() (also nested) while cooperative tasks run "
         "instrumented steps; W4: 2-4 tasks acquire (blocking / non-blocking) "
-        "and release 1-2 cooperative Locks -- a hub mode (inline or threaded) "
+        "and release 1-2 cooperative Locks; W5: 1-3 tasks wait in Select for "
+        "data that foreign threads supply (the wake-up goes through the "
+        "select hub and carries the ready lists) -- a hub mode (inline or threaded) "
         "and a schedule policy (random with switch probability 0.05-0.6, or "
         "PCT with depth 1-4); the engine pre-empts at every traced line of "
         "recoco.py and at every Lock/Event/Queue/select.  Oracles: exactly "
@@ -51,14 +53,14 @@ STUBBED = ["threading.Thread/Lock/Event, queue.Queue (simkit.cthreads, "
            "runs the real pox.lib.util PipePinger over a simulated os.pipe "
            "(pre-empted inside ping/pong), the other half a level-triggered "
            "stand-in"]
-EXPECT_PROBES = ["w1", "w2", "w3", "w4", "hub_inline", "hub_threaded",
+EXPECT_PROBES = ["w1", "w2", "w3", "w4", "w5", "hub_inline", "hub_threaded",
                  "policy_random", "policy_pct", "switch_in_recoco",
                  "real_pinger"]
 
 
 def gen_plan(seed, tier):
   r = Rng(seed)
-  w = r.wpick([(4, "w1"), (3, "w2"), (3, "w3"), (2, "w4")])
+  w = r.wpick([(4, "w1"), (3, "w2"), (3, "w3"), (2, "w4"), (2, "w5")])
   cfg = {"workload": w, "threaded_hub": r.chance(0.5),
          "policy": r.pick(["random", "random", "pct"]),
          "switch_p": r.pick([0.05, 0.15, 0.3, 0.6]),
@@ -91,6 +93,14 @@ def gen_plan(seed, tier):
                     "nested": r.chance(0.3), "inner": r.randint(0, 3)})
     cfg["coop_tasks"] = r.randint(1, 3)
     cfg["coop_steps"] = r.randint(2, 6)
+  elif w == "w5":
+    # tasks waiting in Select for data that foreign threads supply: the
+    # wake-up goes through the select hub (its own thread, when threaded)
+    # and carries a value
+    for i in range(r.randint(1, 3)):
+      steps.append({"thread": i, "sends": r.randint(1, 4),
+                    "timeout": r.pick([None, None, 5.0])})
+    cfg["threaded_hub"] = r.chance(0.75)
   else:
     nl = r.randint(1, 2)
     for i in range(r.randint(2, 4)):
@@ -311,6 +321,89 @@ def _w1(sim, world, eng, plan):
                       "blocked in between, so the wake-up was not noticed "
                       "until a polling timeout expired"
                       % (who, j, t_exec - t_sub))
+
+
+# ---------------------------------------------------------------------------
+# W5: a wake-up that carries a value (task in Select, data from a thread)
+# ---------------------------------------------------------------------------
+
+def _w5(sim, world, eng, plan):
+  cfg = plan["cfg"]
+  R = world.R
+  resumes = []      # (i, value-kind, t, bytes read)
+  sent = {}         # i -> [(t, n)]
+  got = {}          # i -> bytes read
+  bad = []
+  state = {"stop": False}
+  socks = {}
+  nthreads = 0
+  done = [0]
+  for st in plan["steps"]:
+    if "thread" not in st:
+      continue
+    i = st["thread"]
+    a, b = sim.socketpair("w5a%d" % i, "w5b%d" % i)
+    socks[i] = (a, b)
+    sent[i] = []
+    got[i] = 0
+
+    class Waiter(R.Task):
+      def run(self_, i=i, a=a, to=st.get("timeout")):
+        while not state["stop"]:
+          v = yield R.Select([a], [], [], to)
+          if v == ([a], [], []):
+            d = a.recv(4096)
+            got[i] += len(d)
+            resumes.append((i, "io", sim.now, len(d)))
+          elif v == ([], [], []):
+            resumes.append((i, "timeout", sim.now, 0))
+          else:
+            bad.append((i, repr(v)[:80]))
+            return
+          sim.ev("w5", i, len(resumes))
+    Waiter().start()
+  world.start_scheduler()
+  _idle_tasks(world, cfg.get("idle_tasks", 0))
+  total = 0
+  for st in plan["steps"]:
+    if "thread" not in st:
+      continue
+    nthreads += 1
+    total += st["sends"]
+
+    def body(i=st["thread"], n=st["sends"]):
+      for j in range(n):
+        sent[i].append((sim.now, 1 + j))
+        socks[i][1].send(b"x" * (1 + j))
+      done[0] += 1
+    eng.spawn(body, "f%d" % st["thread"])
+
+  def quiet():
+    if done[0] < nthreads or bad:
+      return bool(bad)
+    return all(got[i] == sum(n for _, n in sent[i]) for i in sent)
+
+  _controller(sim, world, eng, quiet, timeout=20.0)
+  fin = eng.run()
+  state["stop"] = True
+  _finish_check(sim, world, eng, fin, "w5")
+  if bad:
+    raise Violation("w5/resume-value", "a task waiting in Select was resumed "
+                    "with %s (task %d): neither the ready lists nor the "
+                    "timeout value" % (bad[0][1], bad[0][0]))
+  for i in sent:
+    want = sum(n for _, n in sent[i])
+    if got[i] != want:
+      raise Violation("w5/lost-wakeup", "task %d read %d of the %d bytes "
+                      "made available to it: a readiness wake-up was lost"
+                      % (i, got[i], want))
+  for i, kind, t, n in resumes:
+    if kind == "io":
+      ts = [ts_ for ts_, _ in sent[i] if ts_ <= t + S.EPS]
+      if ts and t - max(ts) > S.EPS and t - min(ts) > S.EPS:
+        raise Violation("w5/late-wakeup", "task %d saw its data %.3f virtual "
+                        "seconds after it was sent: the wake-up waited for a "
+                        "polling timeout" % (i, t - max(ts)))
 
 
 # ---------------------------------------------------------------------------
